@@ -127,7 +127,7 @@ def strip_generics(header: str) -> str:
 
 _KW_ITEM = re.compile(
     r'\b(?:(?:pub(?:\s*\([^)]*\))?\s+)?(?:(?:const|async|unsafe|default)\s+)*)'
-    r'(fn|enum|struct|impl|mod|trait|macro_rules!|const|static|type)\b')
+    r'((?:fn|enum|struct|impl|mod|trait|const|static|type)\b|macro_rules!)')
 
 
 class Block:
@@ -200,6 +200,11 @@ class Block:
                 name = strip_generics(header)
                 # drop where clauses for impl headers
                 name = re.sub(r'\s+where\b.*$', '', name)
+                # also remember the raw header with only the leading `impl<..>` parameter list removed
+                raw = ' '.join(header.split())
+                raw = re.sub(r'^impl\s*<[^>]*>\s*', 'impl ', raw)
+                raw = re.sub(r'\s+where\b.*$', '', raw)
+                name = name + '\x00' + raw
             yield (kind, name, istart, hend, iend)
             pos = iend
 
@@ -214,7 +219,7 @@ class Block:
         found = []
         for (k, nm, istart, hend, iend) in self.items():
             if k == 'impl' and kind == 'impl':
-                if nm == selector:
+                if selector in nm.split('\x00'):
                     found.append((k, nm, istart, hend, iend))
             elif k == kind and nm == name:
                 found.append((k, nm, istart, hend, iend))
